@@ -193,4 +193,22 @@ Proof.
 Qed.
 End Exact.
 
+(* on an exact class the "no underflow" hypothesis of the sequential statement (ProlongProofs.no_underflow) holds *)
+Lemma no_underflow_exact (isint : F -> Prop) n sa k :
+  isint zero -> (forall x y, isint x -> isint y -> isint (add x y)) ->
+  (forall x y, isint x -> isint y -> isint (mul x y)) -> (forall x, isint x -> isint (opp x)) ->
+  (forall x, isint x -> smallm x = true -> x = zero) -> (forall x, isint x -> small x = true -> x = zero) ->
+  (forall i l, isint (sa i l)) ->
+  forall t, (forall i j, isint (t i j)) -> no_underflow F zero add mul sub small smallm n sa t k.
+Proof.
+  intros I0 Ia Im Io Is1 Is2 Isa. induction k as [|k IH]; intros t It; cbn [no_underflow]; [exact I|].
+  assert (Isum : forall i j, isint (sumF (map (fun l => mul (sa i l) (t l j)) (seq 0 n)))).
+  { intros i j. induction (seq 0 n) as [|l ls IHl]; simpl; [exact I0|]. apply Ia; [apply Im; [apply Isa|apply It]|exact IHl]. }
+  assert (Isub : forall i j, isint (sub (t i j) (sumF (map (fun l => mul (sa i l) (t l j)) (seq 0 n))))).
+  { intros i j. rewrite (Rsub_def Fth). apply Ia; [apply It|apply Io, Isum]. }
+  split.
+  - intros i j. cbv zeta. split; [apply Is1, Isum|apply Is2, Isub].
+  - apply IH. exact Isub.
+Qed.
+
 End ParProlongPkg.
